@@ -102,6 +102,7 @@ impl Property for C20 {
             real: None,
             note: String::new(),
             decoy_in_cwd: false,
+            echo_mode: false,
         };
         let (ropt, r): (Opt, String) = match rng.weighted(&[6, 2, 1, 2]) {
             0 => {
